@@ -163,3 +163,8 @@ Definition peer_sig_distinctb (segs : list segment) : bool :=
   forallb (fun a => negb (existsb (if_eqb a) (reg_sigs segs))) (peer_sigs segs).
 (** the hop-field interface sequence of a path: what the fingerprint hashes besides src / dst *)
 Definition hop_sigs (p : spath) : list (N * N) := map sig (flat_map ds_hops (sp_segs p)).
+
+(** decidable form of the injectivity hypothesis on the fingerprint hash: among the candidate
+    paths, equal fingerprints imply equal hop-field interface sequences *)
+Definition fp_faithfulb (cand : list spath) : bool :=
+  forallb (fun x => forallb (fun y => negb (sp_fp x =? sp_fp y) || list_eqb if_eqb (hop_sigs x) (hop_sigs y)) cand) cand.
